@@ -413,6 +413,19 @@ pub struct Inner {
 pub struct NewT(pub i64);
 #[derive(Serialize, Deserialize, Debug, Clone)]
 pub struct TupS(pub i32, pub String, pub bool);
+/// newtype structs as *root* targets of the single-value routes
+#[derive(Serialize, Deserialize, Debug, Clone)]
+pub struct NewStr(pub String);
+#[derive(Serialize, Deserialize, Debug, Clone)]
+pub struct NewInner(pub Inner);
+#[derive(Serialize, Deserialize, Debug, Clone)]
+pub struct NewVec(pub Vec<Inner>);
+#[derive(Serialize, Deserialize, Debug, Clone)]
+pub struct NewE(pub E);
+#[derive(Serialize, Deserialize, Debug, Clone)]
+pub struct NewNew(pub NewT);
+#[derive(Serialize, Deserialize, Debug, Clone)]
+pub struct NewArr(pub Vec<Vec<String>>);
 #[derive(Serialize, Deserialize, Debug, Clone)]
 pub struct EmptyS {}
 
@@ -632,7 +645,7 @@ pub fn g_seqs(t: &mut Tape) -> Seqs {
     Seqs {
         a: g_vec(t, 4, g_i32),
         b: g_vec(t, 3, |t| g_vec(t, 3, g_string)),
-        c: g_vec(t, 3, g_inner),
+        c: if t.chance(1, 12) { let n = 22 + t.small(25); (0..n).map(|_| g_inner(t)).collect() } else { g_vec(t, 3, g_inner) },
         d: g_vec(t, 4, g_e),
         e: (g_i32(t), g_string(t), t.chance(1, 2)),
         f: g_vec(t, 2, |t| (g_i32(t), g_inner(t))),
@@ -640,7 +653,17 @@ pub fn g_seqs(t: &mut Tape) -> Seqs {
         h: (g_string(t), g_inner(t)),
     }
 }
+/// a map with exactly n entries (numbered keys, visited out of order)
+pub fn g_map_n<T>(t: &mut Tape, n: usize, mut f: impl FnMut(&mut Tape) -> T) -> BTreeMap<String, T> {
+    (0..n).map(|i| (format!("w{:02}", (i * 7) % n.max(1)), f(t))).collect()
+}
 pub fn g_maps(t: &mut Tape) -> Maps {
+    if t.chance(1, 12) {
+        // wide: dozens of tables
+        let n = 22 + t.small(25);
+        let m = t.small(12);
+        return Maps { a: g_map(t, 4, g_i32), b: g_map_n(t, n, g_inner), c: g_map_n(t, m, |t| g_vec(t, 3, g_e)), d: BTreeMap::new(), e: g_map(t, 2, |t| g_map(t, 2, g_opts)) };
+    }
     let mut d = BTreeMap::new();
     for k in [KeyEnum::Alpha, KeyEnum::Beta, KeyEnum::Gamma] {
         if t.chance(1, 2) {
